@@ -462,6 +462,36 @@ def run(ctx):
                    fn.loc(sb))
     ctx.floor("R-C03.9", "memtable seal sites outside recovery", seal_sites, 1)
 
+    # ---- R-C03.1 (cont.) write_batch's "nothing to write" shortcut is taken only for an empty batch
+    wbf = ctx.fn(R.WRITER + "::write_batch", "R-C03.1")
+    if wbf:
+        ogw = ctx.og(wbf)
+        ws = R.call_blocks(wbf, (R.WRITER + "::write_start",))
+        ok = False
+        detail = "write_batch has no write_start"
+        if ws:
+            # every switch that can bypass write_start on a non-error path must be `batch_size == 0`
+            errs = list(A.error_starts(wbf))
+            r_ = A.reach(wbf, [0], avoid=ws + errs)
+            byp = [x for x in wbf.return_blocks() if x in r_]
+            ok = True
+            detail = "write_start is on every non-error path"
+            if byp:
+                ok = False
+                detail = "write_batch can return without framing the batch"
+                for sb, blk in enumerate(wbf.blocks):
+                    if blk["cleanup"] or blk["t"]["k"] != "switch" or ws[0] in A.reach(wbf, [0], avoid=[sb]):
+                        continue
+                    cmp_ = A.compare_switch(wbf, sb, ogw)
+                    if cmp_ and cmp_[0] in ("Eq", "Ne") and cmp_[1].k == "param" and cmp_[1].a[0] == 3 and cmp_[2].k == "const" and tuple(cmp_[2].a) == ("int", 0):
+                        zero_edge = cmp_[3] if cmp_[0] == "Eq" else cmp_[4]
+                        nz_edge = cmp_[4] if cmp_[0] == "Eq" else cmp_[3]
+                        if all(any(x in A.reach(wbf, [e], avoid=ws + errs) for x in byp) for e in zero_edge) and not any(x in A.reach(wbf, nz_edge, avoid=ws + errs) for x in byp):
+                            ok = True
+                            detail = "the only way around write_start is batch_size == 0"
+        ctx.ob("R-C03.1", wbf, "unframed-return-only-for-an-empty-batch", ok,
+               detail if ok else detail + " for a non-empty batch: the items are applied to the memtables and acknowledged, nothing is journaled — after a crash the whole batch is gone")
+
     # ---- R-C03.10 a commit cannot fail half-way: once the batch is journaled and the first item applied, every path leads to the
     # publish — an error return out of the apply loop (a late "keyspace was deleted" check, a fallible lookup) leaves some
     # keyspaces with their part of the batch and others without, journals the whole batch (a reopen replays all of it) and
